@@ -64,3 +64,125 @@ Theorem C11_walks_bfs_exhaustive :
           List.In t (layer state st_eq_dec (acts G) (start :: nil) d)).
 Proof. exact @walks_bfs_exhaustive. Qed.
 Print Assumptions C11_walks_bfs_exhaustive.
+
+From V Require Import Base Tensor Perm Graph GraphProofs NumpyBfs NumpyBfsProofs Bitmask BitmaskProofs.
+
+(* the NumPy engine model (per-generator frontier groups, set differences against the two previous layers, skipped inverse generator) returns exactly the sizes of the true layers up to the depth limit or the first empty layer, for ANY bijective generator functions closed under inverse and any start state *)
+Theorem C11_numpy_bfs_growth :
+  forall (fs : list (BinNums.Z -> BinNums.Z)) (inv_idx : list nat) (start : BinNums.Z),
+         inverse_index_ok fs inv_idx ->
+         forall (max_diameter : BinNums.N) (k : nat),
+         BinNat.N.le (BinNums.Npos BinNums.xH) max_diameter ->
+         growth_cut fs start (BinNat.N.to_nat max_diameter) k ->
+         bfs_numpy fs inv_idx start max_diameter =
+         List.map (fun i : nat => length (layer BinNums.Z BinInt.Z.eq_dec fs (start :: nil) i))
+           (List.seq 0 (S k)).
+Proof. exact @numpy_bfs_growth. Qed.
+Print Assumptions C11_numpy_bfs_growth.
+
+(* the same without naming the cut: the true layer sizes truncated at the first empty layer *)
+Theorem C11_numpy_bfs_growth_takewhile :
+  forall (fs : list (BinNums.Z -> BinNums.Z)) (inv_idx : list nat) (start : BinNums.Z),
+         inverse_index_ok fs inv_idx ->
+         forall max_diameter : BinNums.N,
+         BinNat.N.le (BinNums.Npos BinNums.xH) max_diameter ->
+         bfs_numpy fs inv_idx start max_diameter =
+         take_nonzero
+           (List.map (fun i : nat => length (layer BinNums.Z BinInt.Z.eq_dec fs (start :: nil) i))
+              (List.seq 0 (S (BinNat.N.to_nat max_diameter)))).
+Proof. exact @numpy_bfs_growth_takewhile. Qed.
+Print Assumptions C11_numpy_bfs_growth_takewhile.
+
+(* entry i is the number of states at distance exactly i *)
+Theorem C11_numpy_bfs_counts_distance_classes :
+  forall (fs : list (BinNums.Z -> BinNums.Z)) (inv_idx : list nat) (start : BinNums.Z),
+         inverse_index_ok fs inv_idx ->
+         forall (max_diameter : BinNums.N) (k i : nat),
+         BinNat.N.le (BinNums.Npos BinNums.xH) max_diameter ->
+         growth_cut fs start (BinNat.N.to_nat max_diameter) k ->
+         length (bfs_numpy fs inv_idx start max_diameter) = S k /\
+         (i <= k ->
+          exists cls : list BinNums.Z,
+            List.NoDup cls /\
+            (forall x : BinNums.Z, List.In x cls <-> dist_is BinNums.Z fs (start :: nil) x i) /\
+            List.nth i (bfs_numpy fs inv_idx start max_diameter) 0 = length cls).
+Proof. exact @numpy_bfs_counts_distance_classes. Qed.
+Print Assumptions C11_numpy_bfs_counts_distance_classes.
+
+(* one iteration maps a group representation of layers t, t+1 to one of layer t+2 *)
+Theorem C11_numpy_next_layer_correct :
+  forall (fs : list (BinNums.Z -> BinNums.Z)) (inv_idx : list nat) (start : BinNums.Z),
+         inverse_index_ok fs inv_idx ->
+         forall (t : nat) (l0 l1 : list (list BinNums.Z)),
+         Inv fs start t l0 l1 ->
+         groups_of fs (layer BinNums.Z BinInt.Z.eq_dec fs (start :: nil) (S t))
+           (layer BinNums.Z BinInt.Z.eq_dec fs (start :: nil) (S (S t)))
+           (next_layer fs inv_idx l0 l1).
+Proof. exact @numpy_next_layer_correct. Qed.
+Print Assumptions C11_numpy_next_layer_correct.
+
+(* bit-mask engine: the 8! prefix table is duplicate-free, consists of the permutations of 0..7, and every entry is found at its own index *)
+Theorem C11_prefix_table_complete :
+  length prefix_table = Factorial.fact 8 /\
+         List.NoDup prefix_table /\
+         (forall p : list nat, List.In p prefix_table -> is_perm p = true /\ length p = 8) /\
+         (forall r : nat,
+          r < Factorial.fact 8 -> index_of (List.nth r prefix_table nil) prefix_table 0 = Some r).
+Proof. exact @prefix_table_complete. Qed.
+Print Assumptions C11_prefix_table_complete.
+
+(* chunk relabelling map1 lists, increasingly, exactly the symbols not in the suffix *)
+Theorem C11_chunk_map1_spec :
+  forall (n : nat) (suffix : list nat),
+         List.NoDup suffix ->
+         (forall x : nat, List.In x suffix -> x < n) ->
+         length suffix = n - 8 ->
+         8 <= n ->
+         length (chunk_map1 n suffix) = 8 /\
+         Sorted.StronglySorted lt (chunk_map1 n suffix) /\
+         (forall i : nat, List.In i (chunk_map1 n suffix) <-> i < n /\ ~ List.In i suffix).
+Proof. exact @chunk_map1_spec. Qed.
+Print Assumptions C11_chunk_map1_spec.
+
+(* map2 is its inverse *)
+Theorem C11_chunk_map2_inverse :
+  forall (n : nat) (suffix : list nat),
+         List.NoDup suffix ->
+         (forall x : nat, List.In x suffix -> x < n) ->
+         length suffix = n - 8 ->
+         8 <= n ->
+         let map1 := chunk_map1 n suffix in
+         let map2 := chunk_map2 n map1 in
+         length map2 = n /\
+         (forall i : nat, i < 8 -> List.nth (List.nth i map1 0) map2 0 = i) /\
+         (forall v : nat,
+          List.In v map1 -> List.nth v map2 0 < 8 /\ List.nth (List.nth v map2 0) map1 0 = v).
+Proof. exact @chunk_map2_inverse. Qed.
+Print Assumptions C11_chunk_map2_inverse.
+
+(* rank then unrank returns the prefix of every permutation of n >= 8 symbols *)
+Theorem C11_rank_unrank :
+  forall (n : nat) (perm : list nat),
+         is_perm perm = true ->
+         length perm = n ->
+         8 <= n ->
+         let sfx := List.skipn 8 perm in
+         let map1 := chunk_map1 n sfx in
+         let map2 := chunk_map2 n map1 in
+         rank_to_prefix (prefix_to_rank perm map2) map1 = List.firstn 8 perm.
+Proof. exact @rank_unrank. Qed.
+Print Assumptions C11_rank_unrank.
+
+(* unrank then rank returns every rank below 8! *)
+Theorem C11_unrank_rank :
+  forall (n : nat) (perm : list nat),
+         is_perm perm = true ->
+         length perm = n ->
+         8 <= n ->
+         let sfx := List.skipn 8 perm in
+         let map1 := chunk_map1 n sfx in
+         let map2 := chunk_map2 n map1 in
+         forall r : nat,
+         r < Factorial.fact 8 -> prefix_to_rank (rank_to_prefix r map1 ++ sfx) map2 = r.
+Proof. exact @unrank_rank. Qed.
+Print Assumptions C11_unrank_rank.
